@@ -172,7 +172,7 @@ def _direct(case, ires, mres, flags, errs, meaning):
         if j < 0:
             return "error %r not visible (in order) in the output %r" % (marker, text[:300])
         pos = j + len(marker)
-    tz_class, has_err, has_ast, prefix_ok, fmt_fails = flags
+    tz_class, has_err, has_ast, prefix_ok = flags
     if has_ast and prefix_ok and isinstance(meaning, list):
         if not pc.flat_prefix_match(fl, pc.flat(meaning)):
             return "well-formed prefix does not render: meaning %r output %r" % (pc.show_ev(meaning)[:300], text[:300])
@@ -195,9 +195,6 @@ def compare(case, impl, model):
 
 def known_finding(case, impl, model):
     ires, mres, flags, errs, meaning = _parts(impl, model)
-    if ires == b"panic" and mres == b"panic" and flags[4] and case[0] == 1:
-        # a date format chrono's parser accepts but its formatter rejects (%#z)
-        return "F-C11-strftime-format-only"
     if not pc.ev_match(ires, mres) or _direct(case, ires, mres, flags, errs, meaning):
         return None
     if flags[0]:
